@@ -323,7 +323,8 @@ pub fn run_step(ws: &Ws, step: &Value) -> Value {
                 for n in step.get("names_hex").and_then(Value::as_array).cloned().unwrap_or_default() {
                     let bytes = hex::decode(n.as_str().unwrap_or("")).unwrap_or_default();
                     let name = std::ffi::OsString::from_vec(bytes);
-                    std::fs::write(dir.join(name), b"raw")?;
+                    let empty = step.get("empty").and_then(Value::as_bool).unwrap_or(false);
+                    std::fs::write(dir.join(name), if empty { &b""[..] } else { &b"raw"[..] })?;
                 }
                 Ok(())
             })();
